@@ -3,7 +3,7 @@ Model of `IndexedGrammar.intersection(regex | automaton)` = `FST.intersection(in
 the triple construction over the states of the transducer (for a regular language: the identity
 transducer of its automaton, `to_fst`), followed by `remove_useless_rules`.
 Non-terminals of the result are "S", "T" and the Python `str` of the triples
-`(state_p, symbol, state_q)`.  Core Lean only.
+`(state_p, non_terminal, state_q)` and `(state_p, ("terminal", symbol), state_q)`.  Core Lean only.
 -/
 import Pfl.Model.Indexed
 import Pfl.Model.FST
@@ -14,6 +14,11 @@ variable {σ : Type} [DecidableEq σ]
 /-- `str((p, x, q))` for a string `x` and states printed by `rs` -/
 def tripleStr (rs : σ → String) (p : σ) (x : String) (q : σ) : String :=
   "(" ++ rs p ++ ", '" ++ x ++ "', " ++ rs q ++ ")"
+
+/-- `str((p, ("terminal", x), q))`: the triple of a terminal (or of "epsilon"); named apart from the
+triple of a non-terminal with the same value (after the repair) -/
+def terTripleStr (rs : σ → String) (p : σ) (x : String) (q : σ) : String :=
+  "(" ++ rs p ++ ", ('terminal', '" ++ x ++ "'), " ++ rs q ++ ")"
 
 /-- `Rules.terminals`: right sides of end rules, and the index symbols of production and
 consumption rules -/
@@ -28,6 +33,7 @@ def ruleTerminals (G : IG) : List String :=
 def interRules (T : FST σ) (rs : σ → String) (G : IG) : List IRule :=
   let Q := T.states
   let tr := tripleStr rs
+  let tt := terTripleStr rs
   [IRule.end_ "T" "epsilon"] ++
   -- `_extract_consumption_rules_intersection`
   (G.rules.flatMap fun r => match r with
@@ -38,19 +44,19 @@ def interRules (T : FST σ) (rs : σ → String) (G : IG) : List IRule :=
     | .dup a b c => Q.flatMap fun p => Q.flatMap fun q => Q.map fun r' =>
         IRule.dup (tr p a q) (tr p b r') (tr r' c q)
     | .prod a b f => Q.flatMap fun p => Q.map fun q => IRule.prod (tr p a q) (tr p b q) f
-    | .end_ a t => Q.flatMap fun p => Q.map fun q => IRule.dup (tr p a q) (tr p t q) "T"
+    | .end_ a t => Q.flatMap fun p => Q.map fun q => IRule.dup (tr p a q) (tt p t q) "T"
     | .cons _ _ _ => []) ++
   -- `_extract_terminals_intersection`
   (G.ruleTerminals.flatMap fun t => Q.flatMap fun p => Q.flatMap fun q => Q.flatMap fun r' =>
-    [IRule.dup (tr p t q) (tr p "epsilon" r') (tr r' t q),
-     IRule.dup (tr p t q) (tr p t r') (tr r' "epsilon" q)]) ++
+    [IRule.dup (tt p t q) (tt p "epsilon" r') (tt r' t q),
+     IRule.dup (tt p t q) (tt p t r') (tt r' "epsilon" q)]) ++
   -- `_extract_epsilon_transitions_intersection`
   (Q.flatMap fun p => Q.flatMap fun q => Q.map fun r' =>
-    IRule.dup (tr p "epsilon" q) (tr p "epsilon" r') (tr r' "epsilon" q)) ++
+    IRule.dup (tt p "epsilon" q) (tt p "epsilon" r') (tt r' "epsilon" q)) ++
   -- `_extract_fst_delta_intersection` (the output word is irrelevant for emptiness)
-  (T.delta.map fun t => IRule.end_ (tr t.1 (t.2.1.getD "epsilon") t.2.2.1) (" ".intercalate t.2.2.2)) ++
+  (T.delta.map fun t => IRule.end_ (tt t.1 (t.2.1.getD "epsilon") t.2.2.1) (" ".intercalate t.2.2.2)) ++
   -- `_extract_fst_epsilon_intersection`
-  (Q.map fun p => IRule.end_ (tr p "epsilon" p) "epsilon") ++
+  (Q.map fun p => IRule.end_ (tt p "epsilon" p) "epsilon") ++
   -- `_extract_fst_duplication_rules_intersection`
   (T.finals.flatMap fun f => T.starts.map fun s => IRule.dup "S" (tr s "S" f) "T")
 
